@@ -346,3 +346,35 @@ package ipfscluster
 //@   loop 1 (range c.alerts)
 //@     invariant total == len(alerts) && len(alerts) >= len(c.alerts)
 //@   modifies nothing
+
+// ---- C09: publish cadence of the informer metrics ----
+// call-history ghosts: sendN / sendFailed: number and last outcome of sendInformerMetric;
+// lastResetD: the delay the republish timer was last armed with
+//@ ghost var sendN int
+//@ ghost var sendFailed bool
+//@ ghost var lastResetD time.Duration
+
+//@ interface Informer.GetMetric(ctx)
+//@   ensures res != nil && fresh(res)
+//@   modifies nothing
+
+//@ func (c *Cluster) sendInformerMetric
+//@   property C09
+//@   ensures res1 != nil
+//@   counts sendN when true
+//@   records sendFailed = err != nil
+//@   modifies heap(api.Metric)
+
+//@ extern time.NewTimer(d)
+//@   modifies nothing
+//@ extern time.Timer.Reset(d)
+//@   records lastResetD = d
+//@   modifies nothing
+
+// "A running peer republishes each of its metrics before the previous one expires": after a successful
+// publish the next one is scheduled at half the metric's time-to-live, after a failed one at a quarter
+//@ func (c *Cluster) pushInformerMetrics
+//@   property C09
+//@   loop 1 (for)
+//@     invariant [republish-before-expiry] sendN > old(sendN) ==> (sendFailed ==> lastResetD == lastTTL / 4) && (!sendFailed ==> lastResetD == lastTTL / 2)
+//@   modifies sendN, sendFailed, lastResetD, lastTTL, heap(api.Metric)
